@@ -25,10 +25,7 @@ def grid_input(rng):
         if r < 0.08:      # zone edge / centre, round numbers
             e = rng.choice([100000.0, 900000.0, 500000.0, 250000.0, 750000.0])
     else:                 # the whole southern UTM domain
-        while True:
-            zone, e, n, hemi, _, _ = gens.grid_point(rng, K.grs80, K.utm)
-            if hemi == 'south' and 1e5 <= e <= 9e5:
-                break
+        _, zone, e, n, _, _ = CV.geo2grid(rng.uniform(-79.5, -0.01), rng.uniform(-179.9, 179.9))
     ht = rng.choice(['absent', 0, 0.0, rng.uniform(-100, 3000), rng.uniform(-100, 3000), -100.0, 3000.0])
     return zone, e, n, ht
 
@@ -64,9 +61,11 @@ def compose(zone, e, n, ht, tset, vcv=None):
     h_out = 0 if isinstance(ht, str) else round(h2, 4)
     vexp = None
     if vcv is not None:
-        vc = ST.vcv_local2cart(vcv, lat, lon)
+        # local -> Cartesian at the input position, J Q J^T, Cartesian -> local at the transformed position
+        r1, r2 = np.asarray(ST.rotation_matrix(lat, lon)), np.asarray(ST.rotation_matrix(lat2, lon2))
+        vc = r1 @ np.asarray(vcv, dtype=float) @ r1.T
         c = X.jqjt(x, y, z, X.params7(tset), vc, X.sd7(tset.tf_sd))
-        vexp = ST.vcv_cart2local(c, lat2, lon2)
+        vexp = r2.T @ c @ r2
     return (zone2, e2, n2, h_out), vexp
 
 
@@ -163,27 +162,33 @@ def run(p):
             except Exception as ex:  # noqa
                 tb = traceback.extract_tb(ex.__traceback__)
                 where = ' <- '.join(f'{os.path.basename(f.filename)}:{f.lineno} {f.name}: {f.line}' for f in reversed(tb[-2:]))
-                p.violation('mga:vcv-3x1', 'vcv_3x1', inp, f'{type(ex).__name__}: {ex} [{where}]',
-                            'the 3x1 variance column carried through (treated as a diagonal matrix)', call)
+                # one defect, many inputs: record a handful of replays, count the rest
+                if sum(v['key'] == 'mga:vcv-3x1' for v in p.violations) < 6:
+                    p.violation('mga:vcv-3x1', 'vcv_3x1', inp, f'{type(ex).__name__}: {ex} [{where}]',
+                                'the 3x1 variance column carried through (treated as a diagonal matrix)', call)
+                else:
+                    p.stats.add('VIOLATION:vcv_3x1')
                 continue
             out = r[4]
             full = compose(zone, e, n, ht, mk(), np.diag(col[:, 0]))[1]
+            # accepted readings of "treated as a diagonal matrix": the full propagation of diag(col), or the
+            # library's column semantics (rotated diagonal kept, off-diagonal terms dropped) at either rotation
+            lat, lon, _, _ = CV.grid2geo(zone, e, n)
+            x, y, z = CV.llh2xyz(lat, lon, 0 if isinstance(ht, str) else ht)
+            tset = mk()
+            cc = ST.vcv_local2cart(col, lat, lon)
+            c = X.jqjt(x, y, z, X.params7(tset), np.diag(cc[:, 0]), X.sd7(tset.tf_sd))
+            x2, y2, z2, _ = T.conform7(x, y, z, tset)
+            lat2, lon2, _ = CV.xyz2llh(x2, y2, z2)
+            col33 = ST.vcv_cart2local(c, lat2, lon2)
+            col31 = ST.vcv_cart2local(np.array([[c[0, 0]], [c[1, 1]], [c[2, 2]]]), lat2, lon2)
             okv = False
             if out is not None:
                 out = np.asarray(out, dtype=float)
                 if out.shape == (3, 3):
-                    okv = X.fro_rel(out, full) <= 1e-9
+                    okv = X.fro_rel(out, full) <= 1e-9 or X.fro_rel(out, col33) <= 1e-9
                 elif out.shape == (3, 1):
-                    # either the diagonal of the full propagation or the library's column semantics at every step
-                    lat, lon, _, _ = CV.grid2geo(zone, e, n)
-                    x, y, z = CV.llh2xyz(lat, lon, 0 if isinstance(ht, str) else ht)
-                    tset = mk()
-                    cc = ST.vcv_local2cart(col, lat, lon)
-                    c = X.jqjt(x, y, z, X.params7(tset), np.diag(cc[:, 0]), X.sd7(tset.tf_sd))
-                    x2, y2, z2, _ = T.conform7(x, y, z, tset)
-                    lat2, lon2, _ = CV.xyz2llh(x2, y2, z2)
-                    colsem = ST.vcv_cart2local(np.array([[c[0, 0]], [c[1, 1]], [c[2, 2]]]), lat2, lon2)
-                    okv = X.fro_rel(out, np.diag(full).reshape(3, 1)) <= 1e-9 or X.fro_rel(out, colsem) <= 1e-9
+                    okv = any(X.fro_rel(out, m) <= 1e-9 for m in (np.diag(full).reshape(3, 1), np.diag(col33).reshape(3, 1), col31))
             p.check(okv, 'mga:vcv-3x1', 'vcv_3x1', inp, None if out is None else np.asarray(out).tolist(),
                     {'full_propagation_of_diag': full.tolist()}, call)
     for k, v in worst.items():
